@@ -47,6 +47,7 @@ def states(tier, seed):
         st.append(dict(part="tc", k_lam=kl, M=M, re=re, sweep=sw, sym=sym))
     for tc, sw, sym in itertools.product([0.02, 0.08, 0.12, 0.2, 0.3], sweeps, [False, True]):
         st.append(dict(part="wave", tc=tc, sweep=sw, sym=sym))
+        st.append(dict(part="wave", tc=tc, sweep=sw, sym=sym, cl0=0.2, cd0=0.01))
     for sym, which in itertools.product([False, True], ["viscous", "wave"]):
         for M, tc in itertools.product([0.3, 0.94], [0.05, 0.3]):
             st.append(dict(part="off", sym=sym, which=which, M=M, tc=tc))
@@ -59,12 +60,12 @@ def run_state(s):
     return globals()["part_" + s["part"]](s)
 
 
-def drag_problem(mesh, sym, k_lam=0.05, with_viscous=True, with_wave=True):
+def drag_problem(mesh, sym, k_lam=0.05, with_viscous=True, with_wave=True, CL0=0.0, CD0=0.0):
     from openaerostruct.aerodynamics.geometry import VLMGeometry
     from openaerostruct.aerodynamics.viscous_drag import ViscousDrag
     from openaerostruct.aerodynamics.wave_drag import WaveDrag
 
-    surf = builders.aero_surface("w", mesh, sym, k_lam=k_lam, with_viscous=with_viscous, with_wave=with_wave, c_max_t=0.303)
+    surf = builders.aero_surface("w", mesh, sym, k_lam=k_lam, with_viscous=with_viscous, with_wave=with_wave, c_max_t=0.303, CL0=CL0, CD0=CD0)
     ny = mesh.shape[1]
     p = om.Problem(reports=False)
     ivc = om.IndepVarComp()
@@ -130,7 +131,9 @@ def mcrit(sweep_deg, tc, CL, ka=0.95):
 def part_wave(s):
     m = wing(s["sweep"], s["sym"])
     ny = m.shape[1]
-    p = drag_problem(m, s["sym"])
+    # the CL input of the component is the surface's total lift coefficient (CL0 included by TotalLift): the dictionary's CL0 /
+    # CD0 entries must not enter a second time
+    p = drag_problem(m, s["sym"], CL0=s.get("cl0", 0.0), CD0=s.get("cd0", 0.0))
     viol, val, runs = [], 0, 0
     tcs = np.full(ny - 1, s["tc"])
     allv = []
